@@ -1,8 +1,12 @@
 //! vf-core: SQL-level differential checks (C01 C02 C03) on top of vf-df and vf_kit::refsql.
 mod c01;
+mod c02;
+mod c03;
 
 fn main() {
     vf_kit::dispatch! {
         "c01" => c01::C01,
+        "c02" => c02::C02,
+        "c03" => c03::C03,
     }
 }
